@@ -252,7 +252,8 @@ def lineParse (acls : List Acl) : List Bytes → Step (List (Bool × Bytes))
       else
         match lineParse acls ts with
         | .ok l => .ok ((neg, name) :: l)
-        | r => r
+        | .reject r => .reject r
+        | .unmodelled => .unmodelled
 
 /-- `http_access` directive: aclParseAccessLine -/
 def parseAccessLine (c : Conf) (toks : List Bytes) : Step Conf :=
